@@ -646,7 +646,7 @@ class CallMixin:
             c1 = Ctx(self, params, h0, self.view(), result=result)
             if con.ensures is not None:
                 self.assume(lift(con.ensures(c1), TBool))
-            if not self.feasible():
+            if not self.oracle(self.feasible):
                 raise PathEnd()
             self.proof_hints(con.qualname, node)
             if con.modifies is not None:
